@@ -21,3 +21,18 @@ impl<const N: usize> FInt<N> {
 }
 } // verus!
 
+
+verus! {
+/// `is_reduced` (an `iter().all(..)` over the limbs: iterator adaptors are outside the Verus subset) answers true on every
+/// value that satisfies the representation invariant. ASSUMED (six lines of the crate, used only inside debug assertions).
+pub assume_specification<const N: usize> [FInt::<N>::is_reduced] (x: &FInt<N>) -> (r: bool)
+    ensures x.reduced() ==> r;
+
+/// the derived `Clone` of FInt (a plain array and a word) is a copy. Outlined (the derived impl has no specification). Trusted.
+#[verifier::external_body]
+fn ol_fint_clone<const N: usize>(x: &FInt<N>) -> (r: FInt<N>)
+    ensures r == *x
+{
+    x.clone()
+}
+} // verus!
